@@ -19,9 +19,14 @@ pub fn labels(s: &str) -> Labels {
 /// A response message: header (QR|RD|RA, NOERROR), the given questions (uncompressed), one answer
 /// `owner A 60 <marker>` whose rdata is a 4-byte marker identifying the scripted message.
 pub fn response(id: u16, questions: &[Q], owner: &Labels, marker: [u8; 4]) -> Vec<u8> {
+    message(id, 0x8180, questions, owner, marker)
+}
+
+/// As `response` with an arbitrary flags word (QR, opcode, TC, rcode, ...).
+pub fn message(id: u16, flags: u16, questions: &[Q], owner: &Labels, marker: [u8; 4]) -> Vec<u8> {
     let mut b = Vec::with_capacity(96);
     b.extend_from_slice(&id.to_be_bytes());
-    b.extend_from_slice(&0x8180u16.to_be_bytes());
+    b.extend_from_slice(&flags.to_be_bytes());
     b.extend_from_slice(&(questions.len() as u16).to_be_bytes());
     b.extend_from_slice(&1u16.to_be_bytes());
     b.extend_from_slice(&[0, 0, 0, 0]);
